@@ -689,7 +689,75 @@ def _g14(ctx):
     return n
 
 
+def _g15(ctx):
+    """GateMatePLL.do_finalize interpreted (lxs/pyconst.py, primitives as opaque objects) on model requests: the CC_PLL primitive is
+    configured by two decimal strings and two doubler flags only, so those must reproduce the registered input frequency and every
+    requested output exactly (there is no margin on this helper), and each output pin carries the signal registered for its phase."""
+    from .. import pyconst
+    from ..pyconst import NS
+    rel = D + "colognechip.py"
+    m = ctx.mod(rel)
+    fn = m.method("GateMatePLL", "do_finalize")
+    ctx.analysed["functions"].add(f"{rel}::GateMatePLL.do_finalize")
+    funcs = {f.name: f for f in m.tree.body if isinstance(f, ast.FunctionDef)}
+    bad = {"in": None, "out": None, "pin": None}
+    n = 0
+    fins = (10e6, 25e6, 12.288e6, 100e6 / 3)
+    fouts = (50e6, 12.288e6, 11.0592e6, 100e6 / 3, 148.351648e6)
+    shapes = ({0: 1}, {0: 1, 90: 1}, {0: 1, 180: 2}, {90: 1, 180: 1, 270: 2}, {180: 1}, {0: 1, 90: 1, 180: 2, 270: 2})
+    for fin in fins:
+        for fo in fouts:
+            for shape in shapes:
+                req = {ph: (f"clk{ph}", fo * k) for ph, k in shape.items()}
+                me = NS(_clkin="clkin", _clkouts=dict(req), _clkin_freq=fin, _low_jitter=1, _perf_mode="economy", _lock_req=1, _usr_clk_ref=False,
+                        _max_freq=250e6, specials=[], comb=[], locked="locked", reset="reset", logger=NS())
+                it = pyconst.Interp({"self": me}, objects=True, funcs=funcs)
+                try:
+                    it.run(fn.body)
+                except pyconst.Raised:
+                    bad["out"] = bad["out"] or f"input {fin} Hz, outputs { {p_: f_ for p_, (_, f_) in req.items()} }: a legal request is refused in do_finalize"
+                    continue
+                except Exception as ex:     # noqa
+                    ctx.need(False, f"GateMatePLL.do_finalize cannot be interpreted: {type(ex).__name__}: {ex}")
+                inst = [o for o in it.created if o.cls == "Instance" and o.args and o.args[0] == "CC_PLL"]
+                ctx.need(len(inst) == 1 and "**" not in inst[0].kwargs, "GateMatePLL.do_finalize emits no single CC_PLL instance the interpreter can read")
+                kw = inst[0].kwargs
+                n += 1
+                what = f"input {fin!r} Hz, outputs { {p_: f_ for p_, (_, f_) in req.items()} }"
+
+                def mhz(v):
+                    try:
+                        return float(v) * 1e6
+                    except (TypeError, ValueError):
+                        return None
+                ref, out = mhz(kw.get("p_REF_CLK")), mhz(kw.get("p_OUT_CLK"))
+                if ref is None or abs(ref - fin) > 1e-9 * fin:
+                    bad["in"] = bad["in"] or f"{what}: REF_CLK = {kw.get('p_REF_CLK')!r} MHz is not the registered input ({fin / 1e6!r} MHz)"
+                for ph, (sig, f_) in req.items():
+                    k = 2 if kw.get(f"p_CLK{ph}_DOUB") == 1 else 1
+                    if ph in (0, 90) and f"p_CLK{ph}_DOUB" in kw:
+                        k = None
+                    got = None if (out is None or k is None) else out * k
+                    if got is None or abs(got - f_) > 1e-9 * f_:
+                        bad["out"] = bad["out"] or f"{what}: OUT_CLK = {kw.get('p_OUT_CLK')!r} MHz, CLK{ph}_DOUB = {kw.get(f'p_CLK{ph}_DOUB')!r} gives " \
+                                                    f"{got!r} Hz on CLK{ph}, requested {f_!r} Hz: the emitted primitive does not produce the requested clock"
+                    if kw.get(f"o_CLK{ph}") != sig:
+                        bad["pin"] = bad["pin"] or f"{what}: pin CLK{ph} drives {kw.get(f'o_CLK{ph}')!r}, the request registered {sig!r}"
+                for ph in (0, 90, 180, 270):
+                    if ph not in req and isinstance(kw.get(f"o_CLK{ph}"), str):
+                        bad["pin"] = bad["pin"] or f"{what}: unrequested pin CLK{ph} drives {kw.get(f'o_CLK{ph}')!r}"
+    ctx.analysed["paths"] += n
+    ctx.ob("G15", rel, "GateMatePLL.do_finalize", "interpreted requests:present", n >= 100, f"{n} requests", fn)
+    ctx.ob("G15", rel, "GateMatePLL.do_finalize", "REF_CLK string = registered input frequency", bad["in"] is None, bad["in"] or "", fn)
+    ctx.ob("G15", rel, "GateMatePLL.do_finalize", "OUT_CLK string x doubler flag = requested frequency of every output", bad["out"] is None, bad["out"] or "", fn)
+    ctx.ob("G15", rel, "GateMatePLL.do_finalize", "pin CLK<phase> drives the signal registered for that phase", bad["pin"] is None, bad["pin"] or "", fn)
+
+
 def run(ctx):
+    ctx.rule("G15", "GateMate CC_PLL (configured by strings): the REF_CLK / OUT_CLK parameters and the CLK180/270 doubler flags placed on the "
+                    "instance reproduce the registered input and every requested output frequency exactly; each output pin carries its "
+                    "own phase's signal", min_sites=4)
+    _g15(ctx)
     ctx.rule("G14", "declared windows are closed intervals: a computed frequency equal to a declared minimum / maximum passes every window "
                     "test of the search routines (non-strict acceptance, strict rejection)", min_sites=14)
     _g14(ctx)
